@@ -184,6 +184,7 @@ fn tampers(tx: &Transaction, spent: &[TxOut], stride: usize) -> Vec<(String, Tra
             push("issuance-entropy-changed".into(), t, spent.to_vec());
         }
     }
+    let has_surjection = tx.output.iter().any(|o| o.asset.is_confidential());
     for (i, s) in spent.iter().enumerate() {
         let mut sp = spent.to_vec();
         match s.value {
@@ -197,6 +198,12 @@ fn tampers(tx: &Transaction, spent: &[TxOut], stride: usize) -> Vec<(String, Tra
             Asset::Explicit(a) => sp[i].asset = Asset::Explicit(if a == c04::asset_a() { c04::asset_b() } else { c04::asset_a() }),
             Asset::Confidential(g) => sp[i].asset = Asset::Confidential(other_generator(&g)),
             Asset::Null => {}
+        }
+        if s.asset.is_confidential() && s.value.is_confidential() && !has_surjection {
+            // The generator of a fully confidential spent output enters the verification only through the
+            // surjection-proof domain; a transaction without any confidential-asset output does not bind it
+            // (its value commitment is used as is). Not a tamper the verifier can or needs to see.
+            continue;
         }
         push(format!("spent-output-asset-changed/{}", if s.asset.is_explicit() { "explicit" } else { "confidential" }), tx.clone(), sp);
     }
@@ -246,6 +253,9 @@ fn check_tampers(r: &Report, label: &str, tx: &Transaction, spent: &[TxOut], str
 
 #[derive(Clone, Debug, serde::Serialize, serde::Deserialize)]
 pub struct Explicit {
+    /// the issuance on input 0 is a reissuance (non-zero blinding nonce; asset id from the entropy)
+    #[serde(default)]
+    pub reissue: bool,
     /// (asset 0/1, value) per input
     pub ins: Vec<(u8, u64)>,
     /// issuance on input 0: (amount, tokens), 0 = null
@@ -266,7 +276,7 @@ fn build_explicit(m: &Explicit) -> (Transaction, Vec<TxOut>) {
             sequence: Sequence::MAX,
             asset_issuance: if i == 0 && (m.iss.0 != 0 || m.iss.1 != 0) {
                 AssetIssuance {
-                    asset_blinding_nonce: zkp::ZERO_TWEAK,
+                    asset_blinding_nonce: if m.reissue { gen::tweak(7900) } else { zkp::ZERO_TWEAK },
                     asset_entropy: pat32(5),
                     amount: if m.iss.0 == 0 { CValue::Null } else { CValue::Explicit(m.iss.0) },
                     inflation_keys: if m.iss.1 == 0 { CValue::Null } else { CValue::Explicit(m.iss.1) },
@@ -387,18 +397,23 @@ fn explicit_models(thorough: bool) -> Vec<Explicit> {
         for iss in &isss {
             let assets_ok = |o: &(u8, u64, u8)| (o.0 < 2) || (o.0 == 2 && iss.0 > 0) || (o.0 == 3 && iss.1 > 0);
             let sing: Vec<&(u8, u64, u8)> = single.iter().filter(|o| assets_ok(o)).collect();
-            out.push(Explicit { ins: ins.clone(), iss: *iss, outs: vec![] });
+            for reissue in [false, true] {
+                if reissue && *iss == (0, 0) {
+                    continue;
+                }
+            out.push(Explicit { reissue, ins: ins.clone(), iss: *iss, outs: vec![] });
             for a in &sing {
-                out.push(Explicit { ins: ins.clone(), iss: *iss, outs: vec![**a] });
+                out.push(Explicit { reissue, ins: ins.clone(), iss: *iss, outs: vec![**a] });
                 for b in &sing {
-                    out.push(Explicit { ins: ins.clone(), iss: *iss, outs: vec![**a, **b] });
+                    out.push(Explicit { reissue, ins: ins.clone(), iss: *iss, outs: vec![**a, **b] });
                     if thorough || (a.2 != 0 && b.1 > 0 && ins.len() == 1 && b.2 == 0) {
                         // three outputs: third is a fee-like (empty script) or OP_RETURN output
                         for c in sing.iter().filter(|c| c.2 != 0 && c.1 <= 2) {
-                            out.push(Explicit { ins: ins.clone(), iss: *iss, outs: vec![**a, **b, **c] });
+                            out.push(Explicit { reissue, ins: ins.clone(), iss: *iss, outs: vec![**a, **b, **c] });
                         }
                     }
                 }
+            }
             }
         }
     }
@@ -469,6 +484,7 @@ pub fn run(r: &Report) {
     r.set_rule(
         "(a) verifying transactions: a C04 sub-grid (1..3 inputs, explicit/confidential spent outputs, one/two assets, issuance, token-only issuance, reissuance, \
          1..3 marked outputs in all positions) + 6 transactions with a blinded output on a provably unspendable script (OP_RETURN data / bare OP_RETURN / empty) \
+         + 4 hand-built mixed ones (explicit asset with confidential value; zero-value data output with a confidential asset) \
          + the repository's real-network transaction; tampers at EVERY applicable position: explicit \
          amount +-1 (outputs, fee), asset swapped, value / asset commitment replaced by another valid one and by each other output's, made \
          explicit, each range / surjection proof removed, exchanged with each other output's, truncated, bit-flipped (every byte in thorough, \
@@ -494,6 +510,12 @@ pub fn run(r: &Report) {
         r.machinery("could not build the blinded-burn base transactions");
     }
     burns.par_iter().for_each(|(label, tx, spent)| check_tampers(r, label, tx, spent, stride));
+    let mixed = mixed_output_cases(r.seed);
+    r.set_extra("mixed_output_base_transactions", json!(mixed.len()));
+    if mixed.len() < 4 {
+        r.machinery(format!("could not build the mixed-output base transactions ({} of 4)", mixed.len()));
+    }
+    mixed.par_iter().for_each(|(label, tx, spent)| check_tampers(r, label, tx, spent, stride));
     // repository vector (transaction::tests::verify_ct): 1 confidential input, 2 CT outputs + fee
     if let Some((tx, spent)) = repo_vector() {
         check_tampers(r, "repository-vector", &tx, &spent, stride.max(16));
@@ -519,7 +541,7 @@ fn burn_cases(seed: u64) -> Vec<(String, Transaction, Vec<TxOut>)> {
     for (k, burn_script) in [Script::from(vec![0x6a, 0x01, 0x42]), Script::new(), Script::from(vec![0x6a])].into_iter().enumerate() {
         for conf_in in [false, true] {
             let sc = Scenario {
-                inputs: vec![c04::InSpec { asset: 0, conf: conf_in, issuance: None }],
+                inputs: vec![c04::InSpec { asset: 0, conf: conf_in, issuance: None, asset_only: false }],
                 outputs: vec![
                     c04::OutSpec { asset: 0, value: 30 + k as u64, kind: OutKind::Marked(2) },
                     c04::OutSpec { asset: 0, value: 12, kind: OutKind::Marked(3) },
@@ -548,6 +570,65 @@ fn burn_cases(seed: u64) -> Vec<(String, Transaction, Vec<TxOut>)> {
             });
             if let Ok(Ok(tx)) = built {
                 out.push((format!("blinded-output-on-unspendable-script/{}", ["op_return-data", "empty", "op_return"][k]), tx, b.spent));
+            }
+        }
+    }
+    out
+}
+
+/// Verifying transactions with MIXED outputs built by hand:
+///  (a) explicit asset + confidential value (range proof against the unblinded generator), twice, balancing each other;
+///  (b) a zero-value OP_RETURN / empty-script output with a CONFIDENTIAL asset and its surjection proof.
+fn mixed_output_cases(seed: u64) -> Vec<(String, Transaction, Vec<TxOut>)> {
+    use elements::RangeProofMessage;
+    let s = secp();
+    let mut out = Vec::new();
+    for conf_in in [false, true] {
+        let sc = Scenario {
+            inputs: vec![c04::InSpec { asset: 0, conf: conf_in, issuance: None, asset_only: false }],
+            outputs: vec![
+                c04::OutSpec { asset: 0, value: 40, kind: OutKind::Plain },
+                c04::OutSpec { asset: 0, value: 17, kind: OutKind::Plain },
+                c04::OutSpec { asset: 0, value: 2, kind: OutKind::Fee },
+            ],
+            rng_stream: 9,
+        };
+        let b = c04::build(&sc);
+        let in_secret = b.secrets[0];
+        // (a)
+        let built = guard(|| -> Result<Transaction, String> {
+            let zero_abf = AssetBlindingFactor::zero();
+            let msg = RangeProofMessage::new(c04::asset_a(), zero_abf);
+            let r0 = ValueBlindingFactor::from_slice(gen::tweak(7800 + conf_in as u64).as_ref()).unwrap();
+            let (v0, p0) = CValue::Explicit(40).blind_with_shared_secret(s, r0, gen::sk(7801), &b.tx.output[0].script_pubkey, &msg).map_err(|e| format!("{:?}", e))?;
+            let r1 = ValueBlindingFactor::last(s, 17, zero_abf, &[in_secret.value_blind_inputs()], &[(40, zero_abf, r0), (2, zero_abf, ValueBlindingFactor::zero())]);
+            let (v1, p1) = CValue::Explicit(17).blind_with_shared_secret(s, r1, gen::sk(7802), &b.tx.output[1].script_pubkey, &msg).map_err(|e| format!("{:?}", e))?;
+            let mut tx = b.tx.clone();
+            tx.output[0].value = v0;
+            tx.output[0].witness.rangeproof = Some(Box::new(p0));
+            tx.output[1].value = v1;
+            tx.output[1].witness.rangeproof = Some(Box::new(p1));
+            Ok(tx)
+        });
+        if let Ok(Ok(tx)) = built {
+            out.push(("explicit-asset+confidential-value".to_string(), tx, b.spent.clone()));
+        }
+        // (b) only with an explicit spent output: explicit outputs cannot balance a blinded input
+        if conf_in {
+            continue;
+        }
+        for burn_script in [Script::from(vec![0x6a, 0x02, 1, 2]), Script::new()] {
+            let built = guard(|| -> Result<Transaction, String> {
+                let mut rng = DetRng::new(seed, 0xC05C, conf_in as u64);
+                let abf = AssetBlindingFactor::from_slice(gen::tweak(7810).as_ref()).unwrap();
+                let (asset, proof) = Asset::Explicit(c04::asset_a()).blind(&mut rng, s, abf, &b.secrets).map_err(|e| format!("{:?}", e))?;
+                let mut tx = b.tx.clone();
+                // balance: 40 + 17 + 2 stays; add a zero-value data output with a blinded asset
+                tx.output.insert(1, TxOut { asset, value: CValue::Explicit(0), nonce: Nonce::Null, script_pubkey: burn_script.clone(), witness: TxOutWitness { surjection_proof: Some(Box::new(proof)), rangeproof: None } });
+                Ok(tx)
+            });
+            if let Ok(Ok(tx)) = built {
+                out.push(("zero-value-output-with-confidential-asset".to_string(), tx, b.spent.clone()));
             }
         }
     }
